@@ -367,10 +367,16 @@ class LedgerSim:
             ts = max(rb.ts + 1, op['ts_abs'])
         now = ts + max(-30, op.get('clock', 0))
         view = view_at(self.cs, rb.id)
+        # miner's free-form reward data: the run's salt, an explicit tag, padded to a seeded length (0..200 bytes)
+        data = (b's%d' % self.cfg['salt']) if self.cfg.get('salt') else op.get('data', '').encode()
+        dl = op.get('data_len')
+        if dl is not None and dl > len(data):
+            data = data + bytes((dl * 7 + i * 13) % 251 for i in range(dl - len(data)))
+        data = data[:200]
         if self.cfg.get('nopow'):
             # blocks that enter state the way bulk download adds them: no proof of work, no validation
             block = consensus.construct_block_for_mining(view, list(txs), key(op.get('miner', 0) % N_KEYS).pk, ts,
-                                                         op.get('data', '').encode(), op.get('nonce0', 0))
+                                                         data, op.get('nonce0', 0))
             bid = rules.block_id(block)
             if bid in self.chain.blocks:
                 self.res.bump('duplicate_accepted')
@@ -382,8 +388,7 @@ class LedgerSim:
             self.res.bump('accepted')
             return
         try:
-            block = mine_honest(view, txs, key(op.get('miner', 0) % N_KEYS), ts, nonce0=op.get('nonce0', 0),
-                                data=(b's%d' % self.cfg['salt']) if self.cfg.get('salt') else b'')
+            block = mine_honest(view, txs, key(op.get('miner', 0) % N_KEYS), ts, nonce0=op.get('nonce0', 0), data=data)
         except Unminable:
             self.res.bump('unminable')
             return
